@@ -69,6 +69,14 @@ class _RenameTargetInstance(DefaultTransformVisitor):
         s = ForStmt(target, iterable, body, stmt.loc)
         return s, None
 
+    def _visit_context(self, stmt: ContextStmt, ctx: None):
+        # `with e as x:` binds `x` like any other target
+        context = self._visit_expr(stmt.ctx, ctx)
+        target = self._visit_binding(stmt.target, ctx)
+        body, _ = self._visit_block(stmt.body, ctx)
+        s = ContextStmt(target, context, body, stmt.loc)
+        return s, None
+
     def _visit_function(self, func: FuncDef, ctx: None):
         args: list[Argument] = []
         for arg in func.args:
